@@ -552,6 +552,23 @@ def fact_scope_follows_memento_fn(repo):
         return None
 
 
+def fact_anonymous_helpers_distinct(repo):
+    """NonMementoFunctionHashRule.__init__ qualifies the key of an anonymous function ('<' in its qualified name) with the symbol"""
+    try:
+        tree = _parse(repo, "code_hash.py")
+        cls = _find_class(tree, "NonMementoFunctionHashRule")
+        fn = _find_func(cls, "__init__")
+        for n in ast.walk(fn):
+            if isinstance(n, ast.If):
+                test = ast.dump(n.test)
+                if "Constant(value='<')" in test and "__qualname__" in test:
+                    body = ast.dump(ast.Module(body=n.body, type_ignores=[]))
+                    return True if "symbol" in body else None
+        return False
+    except Exception:
+        return None
+
+
 FACTS = []
 
 
@@ -690,6 +707,11 @@ def _f25(repo):
 @fact("scope_follows_memento_fn", "option bool")
 def _f26(repo):
     return _opt_bool(fact_scope_follows_memento_fn(repo))
+
+
+@fact("anonymous_helpers_distinct", "option bool")
+def _f27(repo):
+    return _opt_bool(fact_anonymous_helpers_distinct(repo))
 
 
 def generate(repo):
